@@ -600,7 +600,7 @@ def _borrowed(modname, fname):
 
 
 # 'identifiers of finished work can never capture a later message' / 'retains no state': completion removes exactly the keyed entry (C03.R4), a refused insert changes nothing (C05.R6)
-BORROWED = [_borrowed("c03", "r4_completion_consumes"), _borrowed("c05", "r6_refused_insert_is_pure"), _borrowed("c05", "r14_classifiers_accept_any_payload"), _borrowed("c05", "rcancel_receive_is_cancel_safe"), _borrowed("c05", "r1_classifier_agreement")]
+BORROWED = [_borrowed("c03", "r4_completion_consumes"), _borrowed("c05", "r6_refused_insert_is_pure"), _borrowed("c05", "r14_classifiers_accept_any_payload"), _borrowed("c05", "rcancel_receive_is_cancel_safe"), _borrowed("c05", "r1_classifier_agreement"), _borrowed("c03", "r10_call_is_polled_before_its_timeout")]
 
 
 
